@@ -12,14 +12,18 @@ BusFlag == <<"b0", "b1", "b2", "b3">>          \* BusFlag[b+1] is the in_service
 
 \* every free boolean of a configuration: in_service of buses/branches/sources, closed of switches,
 \* z0 = "switch s0 has z_ohm > 0"
-Flags == {"b0","b1","b2","b3","l0","l1","l2","t0","w0","e0","e1","g0","g1","s0","s1","s2","s3","s4","z0"}
+Flags == {"b0","b1","b2","b3","l0","l1","l2","l3","t0","w0","w1","e0","e1","g0","g1","s0","s1","s2","s3","s4","s5","z0"}
 
-\* branches: n = numeric id used for auxiliary node numbers, idx = index in its pandapower table
-Branch == [ l0 |-> [kind |-> "line",    n |-> 0, idx |-> 0, ends |-> <<0, 1>>],
-            l1 |-> [kind |-> "line",    n |-> 1, idx |-> 1, ends |-> <<1, 2>>],
-            l2 |-> [kind |-> "line",    n |-> 2, idx |-> 2, ends |-> <<0, 2>>],
-            t0 |-> [kind |-> "trafo",   n |-> 3, idx |-> 0, ends |-> <<2, 3>>],      \* hv, lv
-            w0 |-> [kind |-> "trafo3w", n |-> 4, idx |-> 0, ends |-> <<0, 1, 3>>] ]  \* hv, mv, lv
+\* branches: n = numeric id used for auxiliary node numbers, idx = index in its pandapower table, km = line length
+\* (the edge weight of create_nxgraph; transformers and switches weigh 0).  l3 is parallel to l0 and longer; w1 shares
+\* bus 0 and bus 3 with w0.
+Branch == [ l0 |-> [kind |-> "line",    n |-> 0, idx |-> 0, ends |-> <<0, 1>>, km |-> 1],
+            l1 |-> [kind |-> "line",    n |-> 1, idx |-> 1, ends |-> <<1, 2>>, km |-> 2],
+            l2 |-> [kind |-> "line",    n |-> 2, idx |-> 2, ends |-> <<0, 2>>, km |-> 1],
+            l3 |-> [kind |-> "line",    n |-> 5, idx |-> 3, ends |-> <<0, 1>>, km |-> 4],
+            t0 |-> [kind |-> "trafo",   n |-> 3, idx |-> 0, ends |-> <<2, 3>>, km |-> 0],      \* hv, lv
+            w0 |-> [kind |-> "trafo3w", n |-> 4, idx |-> 0, ends |-> <<0, 1, 3>>, km |-> 0],   \* hv, mv, lv
+            w1 |-> [kind |-> "trafo3w", n |-> 6, idx |-> 1, ends |-> <<0, 2, 3>>, km |-> 0] ]
 BranchIds == DOMAIN Branch
 
 \* switches: et, bus, (ebus | ebr) = element, zf = flag name carrying "z_ohm > 0" ("" = always 0)
@@ -27,7 +31,8 @@ Switch == [ s0 |-> [et |-> "b",  bus |-> 1, ebus |-> 2, ebr |-> "",   zf |-> "z0
             s1 |-> [et |-> "l",  bus |-> 1, ebus |-> 0, ebr |-> "l0", zf |-> "",   idx |-> 1],
             s2 |-> [et |-> "t",  bus |-> 3, ebus |-> 0, ebr |-> "t0", zf |-> "",   idx |-> 2],
             s3 |-> [et |-> "t3", bus |-> 1, ebus |-> 0, ebr |-> "w0", zf |-> "",   idx |-> 3],
-            s4 |-> [et |-> "l",  bus |-> 0, ebus |-> 0, ebr |-> "l0", zf |-> "",   idx |-> 4] ]
+            s4 |-> [et |-> "l",  bus |-> 0, ebus |-> 0, ebr |-> "l0", zf |-> "",   idx |-> 4],
+            s5 |-> [et |-> "t3", bus |-> 0, ebus |-> 0, ebr |-> "w1", zf |-> "",   idx |-> 5] ]
 SwitchIds == DOMAIN Switch
 
 \* sources: ext_grids and gens (slack = may serve as reference)
@@ -127,6 +132,25 @@ Layers(A, seen, frontier, d, acc) ==
 Dist(f, o, src) == IF src \in Nodes(f, o)
                    THEN Layers({<<a[1], a[2]>> : a \in Adj(f, o)}, {src}, {src}, 0, [b \in {src} |-> 0])
                    ELSE <<>>
+
+\* weighted shortest paths (dijkstra with weight='weight' on the MultiGraph: the lightest of parallel edges counts)
+LineKm == [idx \in {Branch[br].idx : br \in {x \in BranchIds : Branch[x].kind = "line"}} |->
+             Branch[CHOOSE br \in BranchIds : Branch[br].kind = "line" /\ Branch[br].idx = idx].km]
+KmOf(kind, idx) == IF kind = "line" THEN LineKm[idx] ELSE 0
+InfD == 999
+MinI(S) == CHOOSE x \in S : \A y \in S : x <= y
+\* Bellman-Ford over the four buses; the distance vector is a TUPLE (d[b + 1] = distance of bus b): TLC evaluates
+\* [b \in S |-> e] lazily, and nesting such functions over the relaxation rounds re-evaluates them exponentially often
+Best(A, d, b) == MinI({d[b + 1]} \cup {d[a[1] + 1] + KmOf(a[3], a[4]) : a \in {a \in A : a[2] = b /\ d[a[1] + 1] < InfD}})
+RECURSIVE Relax(_, _, _)
+Relax(A, d, k) == IF k = 0 THEN d ELSE Relax(A, <<Best(A, d, 0), Best(A, d, 1), Best(A, d, 2), Best(A, d, 3)>>, k - 1)
+WDist(f, o, src) == IF src \in Nodes(f, o)
+                    THEN LET adj == Adj(f, o)
+                             nodes == Nodes(f, o)
+                             d == Relax(adj, <<IF src = 0 THEN 0 ELSE InfD, IF src = 1 THEN 0 ELSE InfD, IF src = 2 THEN 0 ELSE InfD,
+                                               IF src = 3 THEN 0 ELSE InfD>>, 4)
+                         IN [b \in {b \in nodes : d[b + 1] < InfD} |-> d[b + 1]]
+                    ELSE <<>>
 
 IsPartition(P, S) == /\ UNION P = S /\ {} \notin P
                      /\ \A x, y \in P : x # y => x \cap y = {}
